@@ -5,6 +5,7 @@ verus! {
 global size_of usize == 8;
 //@ include units/common/float.inc.rs
 //@ include units/raw_gds/gds.inc.rs
+proof fn canary_structs(gs: Seq<gds21::GdsStruct>, cells: Seq<Ptr<Cell>>) requires structs_are(gs, cells), cells_pre(cells), cells.len() == 3, gs.len() == 2, pointee(cells[0]).layout is Some ensures false {}
 proof fn canary_shape_ok(s: Shape) requires shape_ok(s), s is Path ensures false {}
 }
 fn main() {}
